@@ -39,6 +39,31 @@ def wordOfInt (x : Int) : Nat := (x % 65536).toNat
 /-- `split_sync` on an array of samples (any shape: `unpackbits` flattens it in C order). -/
 def splitSyncArr (xs : List Int) : List (List Nat) := xs.map fun x => splitSync (wordOfInt x)
 
+/-- `a.reshape(n, c)` of a flat array (C order): row `i` holds the elements `i*c … i*c + c - 1`; `none` = NumPy's
+`ValueError: cannot reshape` when the sizes do not agree. -/
+def reshapeRows {α : Type} (n c : Nat) (l : List α) : Option (List (List α)) :=
+  if l.length = n * c then some ((List.range n).map fun i => (l.drop (i * c)).take c) else none
+
+/-- `np.roll(m, s, axis)` / `np.flip(m, axis)` on a 2-D array given as its list of rows (`axis` 0 or 1). -/
+def roll2 {α : Type} (axis : Nat) (s : Nat) (m : List (List α)) : List (List α) :=
+  if axis = 1 then m.map fun r => roll r s else roll m s
+def flip2 {α : Type} (axis : Nat) (m : List (List α)) : List (List α) :=
+  if axis = 1 then m.map List.reverse else m.reverse
+
+/-- `split_sync` on a whole array of samples, operation by operation as the source performs them on the ARRAY
+(`xs` = the samples in C order, whatever the shape of `sync_tr`):
+
+    sync_tr = np.int16(np.copy(sync_tr))                                      -- `wordOfInt`
+    out = np.unpackbits(sync_tr.view(np.uint8)).reshape(sync_tr.size, 16)     -- bytes, bits, `reshapeRows size 16`
+    out = np.flip(np.roll(out, 8, axis=1), axis=1)                            -- `roll2 1 8`, `flip2 1`
+
+Nothing here says that row `t` of the reshaped bit array belongs to sample `t`: that is the theorem
+`splitSyncFlat_eq` (index arithmetic of the reshape). -/
+def splitSyncFlat (xs : List Int) : Option (List (List Nat)) :=
+  let bytes := xs.flatMap fun x => viewBytes (wordOfInt x)
+  let bits := bytes.flatMap unpackByte
+  (reshapeRows xs.length 16 bits).map fun out => flip2 1 (roll2 1 8 out)
+
 /-- The acquisition side (not code of the repository): line `k` of the 16 TTL lines is bit `k`. -/
 def encodeBits : List Bool → Nat
   | [] => 0
@@ -69,20 +94,33 @@ def whereFrom (p : α → Bool) (i : Nat) : List α → List (Nat × α)
 /-- `np.abs` -/
 def absV (d : α) : α := if d < 0 then -d else d
 
+/-- `np.abs(d) >= step`, for one element `d` of the difference array (the decision of `fronts`). -/
+abbrev frontsPred (step d : α) : Bool := decide (step ≤ absV d)
+
+/-- `np.diff(x, axis=axis) >= step`, for one element `d` of the difference array (the decision of `rises`). -/
+abbrev risesPred (step d : α) : Bool := decide (step ≤ d)
+
+/-- `(x > step).astype(np.float64)`, for one sample. -/
+abbrev binOne (step v : α) : α := if step < v then 1 else 0
+
+/-- `ind[axis] += 1`: an index into the difference array becomes the index of the sample at which the new level is
+reached. -/
+abbrev idxShift (i : Nat) : Nat := i + 1
+
 /--     d = np.diff(x, axis=axis)
         ind = np.array(np.where(np.abs(d) >= step))
         sign = d[tuple(ind)]
         ind[axis] += 1
 as the list of pairs `(ind[k], sign[k])`. -/
 def frontsPairs (x : List α) (step : α) : List (Nat × α) :=
-  (whereFrom (fun v => decide (step ≤ absV v)) 0 (diff x)).map fun q => (q.1 + 1, q.2)
+  (whereFrom (frontsPred step) 0 (diff x)).map fun q => (idxShift q.1, q.2)
 
 /-- `fronts(x, step=step)` for 1-D `x`: `(ind, sign)`. -/
 def fronts (x : List α) (step : α) : List Nat × List α :=
   ((frontsPairs x step).map (·.1), (frontsPairs x step).map (·.2))
 
 /-- `(x > step).astype(np.float64)` -/
-def binarize (x : List α) (step : α) : List α := x.map fun v => if step < v then 1 else 0
+def binarize (x : List α) (step : α) : List α := x.map (binOne step)
 
 /--     if analog:
             x = (x > step).astype(np.float64)
@@ -92,7 +130,7 @@ def binarize (x : List α) (step : α) : List α := x.map fun v => if step < v t
 def rises (x : List α) (step : α) (analog : Bool) : List Nat :=
   let x' := if analog then binarize x step else x
   let step' : α := if analog then 1 else step
-  (whereFrom (fun v => decide (step' ≤ v)) 0 (diff x')).map fun q => q.1 + 1
+  (whereFrom (risesPred step') 0 (diff x')).map fun q => idxShift q.1
 
 /-- `falls(x, step, analog) = rises(-x, step=-step, analog=analog)` -/
 def falls (x : List α) (step : α) (analog : Bool) : List Nat :=
@@ -112,18 +150,18 @@ def where2From (p : α → Bool) (i : Nat) : List (List α) → List ((Nat × Na
 
 /-- `ind[axis] += 1` -/
 def bump (axis : Nat) (ij : Nat × Nat) : Nat × Nat :=
-  if axis = 1 then (ij.1, ij.2 + 1) else (ij.1 + 1, ij.2)
+  if axis = 1 then (ij.1, idxShift ij.2) else (idxShift ij.1, ij.2)
 
 /-- `fronts(x, axis, step)` for 2-D `x` (`axis` already normalised to 0 or 1): the list of
 `((ind[0][k], ind[1][k]), sign[k])`. -/
 def fronts2 (axis : Nat) (x : List (List α)) (step : α) : List ((Nat × Nat) × α) :=
-  (where2From (fun v => decide (step ≤ absV v)) 0 (diff2 axis x)).map fun q => (bump axis q.1, q.2)
+  (where2From (frontsPred step) 0 (diff2 axis x)).map fun q => (bump axis q.1, q.2)
 
 /-- `rises(x, axis, step, analog)` for 2-D `x`. -/
 def rises2 (axis : Nat) (x : List (List α)) (step : α) (analog : Bool) : List (Nat × Nat) :=
   let x' := if analog then x.map (fun r => binarize r step) else x
   let step' : α := if analog then 1 else step
-  (where2From (fun v => decide (step' ≤ v)) 0 (diff2 axis x')).map fun q => bump axis q.1
+  (where2From (risesPred step') 0 (diff2 axis x')).map fun q => bump axis q.1
 
 /-- `falls(x, axis, step, analog)` for 2-D `x`. -/
 def falls2 (axis : Nat) (x : List (List α)) (step : α) (analog : Bool) : List (Nat × Nat) :=
@@ -154,6 +192,25 @@ inductive Err where
   | valueError     -- np.concatenate: digital and analog parts have different numbers of rows
 deriving Repr, DecidableEq
 
+/-- The stream types `_get_type_from_meta` distinguishes. -/
+inductive Typ where
+  | lf | ap | nidq
+deriving Repr, DecidableEq
+
+def Typ.name : Typ → String
+  | .lf => "lf" | .ap => "ap" | .nidq => "nidq"
+
+/--     snsApLfSy = md.get("snsApLfSy", [-1, -1, -1])
+        if snsApLfSy[0] == 0 and snsApLfSy[1] != 0:   return "lf"
+        elif snsApLfSy[0] != 0 and snsApLfSy[1] == 0: return "ap"
+        elif snsApLfSy == [-1, -1, -1] and md.get("typeThis", None) == "nidq": return "nidq"
+(falls off the end, i.e. `None`, otherwise).  An imec meta carries `snsApLfSy`, a nidq meta does not (the default
+`[-1, -1, -1]` fails the first two tests).  `none` for `.nometa` stands for the `AttributeError` of `None.get`. -/
+def typeFromMeta : Stream → Option Typ
+  | .nidq _ _ _ _ => some .nidq
+  | .imec ap lf _ => if ap = 0 ∧ lf ≠ 0 then some .lf else if ap ≠ 0 ∧ lf = 0 then some .ap else none
+  | .nometa => none
+
 /--     typ = _get_type_from_meta(md)          # 'lf' if sns[0]==0 and sns[1]!=0; 'ap' if sns[0]!=0 and sns[1]==0
         ntr = int(_get_nchannels_from_meta(md))
         if typ == "nidq":   nsync = int(md.get("snsMnMaXaDw")[-1])
@@ -162,8 +219,9 @@ deriving Repr, DecidableEq
 def syncIdx (ntr : Nat) : Stream → Except Err (List Int)
   | .nidq _ _ _ dw => .ok ((List.range dw).map fun (i : Nat) => (ntr : Int) - (dw : Int) + (i : Int))
   | .imec ap lf sy =>
-    if (ap = 0 ∧ lf ≠ 0) ∨ (ap ≠ 0 ∧ lf = 0) then .ok ((List.range sy).map fun (i : Nat) => (ntr : Int) - (sy : Int) + (i : Int))
-    else .error .unboundLocal
+    match typeFromMeta (.imec ap lf sy) with
+    | some _ => .ok ((List.range sy).map fun (i : Nat) => (ntr : Int) - (sy : Int) + (i : Int))
+    | none => .error .unboundLocal
   | .nometa => .error .attributeError
 
 /--     if typ != "nidq": return []
